@@ -1,3 +1,4 @@
+import binascii
 from .iq import IqProtocolEntity
 from yowsup.structs import ProtocolTreeNode
 class CryptoIqProtocolEntity(IqProtocolEntity):
@@ -7,7 +8,7 @@ class CryptoIqProtocolEntity(IqProtocolEntity):
     def toProtocolTreeNode(self):
         node = super(CryptoIqProtocolEntity, self).toProtocolTreeNode()
         cryptoNode = ProtocolTreeNode("crypto", {"action": "create"})
-        googleNode = ProtocolTreeNode("google", data = "fe5cf90c511fb899781bbed754577098e460d048312c8b36c11c91ca4b49ca34".decode('hex'))
+        googleNode = ProtocolTreeNode("google", data = binascii.unhexlify("fe5cf90c511fb899781bbed754577098e460d048312c8b36c11c91ca4b49ca34"))
         cryptoNode.addChild(googleNode)
         node.addChild(cryptoNode)
         return node
